@@ -2,5 +2,23 @@
 package mon
 
 import (
+	_ "verifharness/mon/c01"
+	_ "verifharness/mon/c02"
+	_ "verifharness/mon/c03"
+	_ "verifharness/mon/c04"
+	_ "verifharness/mon/c05"
+	_ "verifharness/mon/c06"
+	_ "verifharness/mon/c07"
+	_ "verifharness/mon/c08"
+	_ "verifharness/mon/c09"
+	_ "verifharness/mon/c10"
+	_ "verifharness/mon/c11"
+	_ "verifharness/mon/c12"
+	_ "verifharness/mon/c13"
+	_ "verifharness/mon/c14"
 	_ "verifharness/mon/c15"
+	_ "verifharness/mon/c16"
+	_ "verifharness/mon/c17"
+	_ "verifharness/mon/c18"
+	_ "verifharness/mon/c19"
 )
